@@ -90,9 +90,7 @@ func exploreRouter(c *Ctx, n int, maxRounds int) ([]rPath, error) {
 			"freevar:routes": symSlice("routes", int64(n)),
 			"freevar:next":   symRef("freevar:next", false),
 		},
-		Params:          map[string]SV{"p0": symRef("cx0", false)},
-		Inline:          func(f *ssa.Function) bool { return false },
-		NoDefaultInline: true,
+		Params: map[string]SV{"p0": symRef("cx0", false)},
 	}
 	for i := 0; i < n; i++ {
 		sc.Heap[fmt.Sprintf("routes[%d].middleware", i)] = symSlice(fmt.Sprintf("routes[%d].middleware", i), 1)
